@@ -235,6 +235,13 @@ class Scheduler:
             t.timed_out = True
             t.state = "runnable"
             t.deadline = None
+            # every other waiter whose time has come as well becomes runnable at the same instant, so that threads
+            # with equal deadlines can interleave
+            for o in self.threads:
+                if o.state == "blocked" and o.deadline is not None and o.deadline <= self.now:
+                    o.timed_out = True
+                    o.state = "runnable"
+                    o.deadline = None
 
     def block(self, desc, deadline=None):
         """The running thread blocks.  Returns True if woken by wake(), False on timeout."""
